@@ -420,3 +420,82 @@ Proof.
   intros Hx Hl. cbv zeta. rewrite <- (csimple_put_length x Hx) in *. rewrite Nat2N.id in *.
   apply store_frame. exact Hl.
 Qed.
+
+(* ---- varintChainedSimpleDecode64 is the reference decoder on every input ---- *)
+Lemma byte_at_skipn z i : byte_at z i = hd 0 (skipn i z).
+Proof.
+  unfold byte_at. revert z. induction i as [|i IH]; intros [|c z]; cbn [nth skipn hd]; try reflexivity.
+  apply IH.
+Qed.
+
+Lemma tl_skipn {A} (z : list A) i : tl (skipn i z) = skipn (S i) z.
+Proof.
+  revert z. induction i as [|i IH]; intros [|c z]; try reflexivity.
+  change (tl (skipn i z) = skipn (S i) z). apply IH.
+Qed.
+
+Lemma cs_loop_pos r z : 1 <= fst (cs_loop r z).
+Proof.
+  destruct r; cbn [cs_loop fst]; [lia|]. cbv zeta.
+  destruct (hd 0 z <? 128); cbn [fst]; lia.
+Qed.
+
+Lemma cs_dec_loop room : forall i result z fuel,
+  (i + room = 8)%nat -> (room + 1 <= fuel)%nat -> result < 2 ^ (7 * N.of_nat i) ->
+  (forall j, N.of_nat j < fst (cs_loop room (skipn i z)) -> byte_at (skipn i z) j < 256) ->
+  cs_dec fuel z i result
+  = (N.of_nat i + fst (cs_loop room (skipn i z)),
+     result + 2 ^ (7 * N.of_nat i) * snd (cs_loop room (skipn i z))).
+Proof.
+  induction room as [|r IH]; intros i result z fuel Hi Hf Hres Hb;
+    (destruct fuel as [|f]; [lia|]); cbn [cs_dec cs_loop]; cbv zeta;
+    rewrite (byte_at_skipn z i).
+  - assert (i = 8%nat) as -> by lia.
+    cbn [cs_loop fst] in Hb. specialize (Hb 0%nat ltac:(lia)).
+    rewrite <- hd_byte_at in Hb.
+    set (b := hd 0 (skipn 8 z)) in *.
+    rewrite andb_false_r. cbn [fst snd].
+    rewrite cs_acc; [f_equal; lia | exact Hres |].
+    change (2 ^ (7 * N.of_nat 8)) with 72057594037927936. lia.
+  - cbn [cs_loop] in Hb. cbv zeta in Hb.
+    set (zs := skipn i z) in *. set (b := hd 0 zs) in *.
+    pose proof (pow7_le i ltac:(lia)) as PL. pose proof (pow7_pos i) as PP.
+    assert (I8 : (i <? 8)%nat = true) by (apply Nat.ltb_lt; lia).
+    destruct (b <? 128) eqn:E.
+    + rewrite land128_test by lia. rewrite E, I8. cbn [negb andb fst snd].
+      rewrite cs_acc; [f_equal; lia | exact Hres |].
+      set (P := 2 ^ (7 * N.of_nat i)) in *. nia.
+    + cbn [fst snd] in Hb.
+      pose proof (cs_loop_pos r (tl zs)) as QP.
+      assert (B : b < 256).
+      { specialize (Hb 0%nat ltac:(lia)). rewrite <- hd_byte_at in Hb. exact Hb. }
+      rewrite land128_test by exact B. rewrite E, I8. cbn [negb andb fst snd].
+      rewrite land127. rewrite cs_acc; [ | exact Hres | set (P := 2 ^ (7 * N.of_nat i)) in *; nia].
+      unfold zs at 1 2. rewrite tl_skipn in *.
+      rewrite IH; try lia.
+      * rewrite pow7_S. set (P := 2 ^ (7 * N.of_nat i)) in *.
+        set (q := cs_loop r (skipn (S i) z)) in *.
+        f_equal; [lia|].
+        assert (D : b mod 128 = b - 128) by lia. rewrite D.
+        set (d := b - 128). set (sq := snd q). clearbody P d sq. nia.
+      * rewrite pow7_S. set (P := 2 ^ (7 * N.of_nat i)) in *.
+        assert (D : b mod 128 < 128) by (apply N.mod_lt; lia).
+        set (d := b mod 128) in *. clearbody d P.
+        assert (d * P <= 127 * P) by (apply N.mul_le_mono_r; lia). lia.
+      * intros j Hj. unfold zs in Hb. rewrite tl_skipn in Hb.
+        specialize (Hb (S j) ltac:(lia)).
+        unfold byte_at in *. rewrite <- tl_skipn.
+        destruct (skipn i z); [destruct j; exact Hb | exact Hb].
+Qed.
+
+Theorem csimple_decode64_is_decode z :
+  (forall i, N.of_nat i < fst (csimple_decode z) -> byte_at z i < 256) ->
+  csimple_decode64 z = csimple_decode z.
+Proof.
+  intro H. unfold csimple_decode64, csimple_decode in *.
+  rewrite (cs_dec_loop 8 0 0 z 10 eq_refl); cbn [skipn].
+  - change (2 ^ (7 * N.of_nat 0)) with 1. destruct (cs_loop 8 z) as [w v]. cbn [fst snd]. f_equal; lia.
+  - lia.
+  - change (2 ^ (7 * N.of_nat 0)) with 1. lia.
+  - exact H.
+Qed.
